@@ -88,6 +88,7 @@ type child struct {
 	nextRid   uint32
 	dead      bool // the transport has been failed by the script
 	deadline  bool // the session context carries a deadline
+	wfailed   bool // a WriteFcall has failed on this session (connection healthy)
 	broken    bool // an oracle failed in a way that makes the rest of the script meaningless
 }
 
@@ -100,12 +101,13 @@ func (c *child) emit(kind string, s string) {
 }
 func (c *child) ev(s sx.S)  { c.emit("E", sx.String(s)) }
 func (c *child) obs(s sx.S) { c.emit("O", sx.String(s)) }
+
 // hangs counts time-outs in this child: each costs peer.Wait, so after a few
 // the remaining scripts are given up (the failures found are reported).
 var hangs int
 
 func (c *child) fail(key, what string) {
-	if strings.Contains(key, "hang") || strings.Contains(key, "no-return") || strings.Contains(key, "no-frame") {
+	if strings.Contains(key, "hang") || strings.Contains(key, "no-return") || strings.Contains(key, "no-frame") || strings.Contains(key, "dead-after") {
 		hangs++
 	}
 	b, _ := json.Marshal(map[string]string{"key": key, "what": what})
@@ -143,7 +145,11 @@ func (c *child) req(mt uint8) {
 			c.broken = true
 			return
 		}
-		c.fail("transport.handle:no-frame", fmt.Sprintf("call %d: %v", id, err))
+		if c.wfailed {
+			c.fail("transport.writer:dead-after-failed-write", fmt.Sprintf("call %d: %v - an earlier WriteFcall on this session failed (request larger than msize, or the call's context had ended) while the connection is healthy; later requests must still be written", id, err))
+		} else {
+			c.fail("transport.handle:no-frame", fmt.Sprintf("call %d: %v", id, err))
+		}
 		c.broken = true
 		return
 	}
@@ -158,6 +164,137 @@ func (c *child) req(mt uint8) {
 	c.issued[f.Tag] = true
 	c.ev(sx.L(sx.Sym("req"), sx.U(uint64(id)), sx.U(uint64(mt)), sx.I(1)))
 	c.obs(sx.L(sx.Sym("f"), sx.U(uint64(f.Tag))))
+}
+
+// failedWrite: a request larger than msize; WriteFcall fails before touching
+// the wire, the call gets that error, the connection stays healthy.
+func (c *child) failedWrite() {
+	id := c.nextCall
+	c.nextCall++
+	c.ev(sx.L(sx.Sym("req"), sx.U(uint64(id)), sx.U(110), sx.I(0)))
+	p := peer.Start(context.Background(), c.sess, 110, id, true)
+	res, ok := p.Await()
+	if !ok {
+		c.fail("transport.send:no-return", fmt.Sprintf("call %d (request larger than msize) did not return", id))
+		c.broken = true
+		return
+	}
+	c.wfailed = true
+	c.obs(sx.L(sx.Sym("d"), sx.U(uint64(id)), res.Sexp()))
+	if res.Class != "werr" {
+		c.fail("transport.handle:write-error-lost", fmt.Sprintf("call %d: WriteFcall failed (message larger than msize) but the call returned %s %q", id, res.Class, res.Text))
+	}
+}
+
+// stall: the peer stops reading, so the writer goroutine blocks in call A's
+// write; call B is queued behind it and abandoned (its WriteFcall will fail on
+// the context check, touching nothing); call C is queued behind B.  When the
+// peer reads again A's and C's frames must arrive - a failed write must not
+// stop the writer.
+func (c *child) stall(mtA, mtB, mtC uint8) {
+	const settle = 40 * time.Millisecond
+	c.peer.PauseAfterNext()
+	paused := true
+	resume := func() {
+		if paused {
+			c.peer.Resume()
+			paused = false
+		}
+	}
+	defer resume()
+	c.req(120) // taken by the read that was already under way; from now on nobody reads
+	if c.broken {
+		return
+	}
+	t0 := c.tagOf[c.nextCall-1]
+	idA, idB, idC := c.nextCall, c.nextCall+1, c.nextCall+2
+	c.nextCall += 3
+	pA := peer.Start(context.Background(), c.sess, mtA, idA, false)
+	time.Sleep(settle)
+	pB := peer.Start(context.Background(), c.sess, mtB, idB, false)
+	time.Sleep(settle)
+	pB.Cancel()
+	resB, ok := pB.Await()
+	if !ok {
+		c.fail("transport.send:no-return-on-own-ctx", fmt.Sprintf("call %d (queued behind a blocked write) did not return after its own context was cancelled", idB))
+		c.broken = true
+		return
+	}
+	pC := peer.Start(context.Background(), c.sess, mtC, idC, false)
+	time.Sleep(settle)
+	for _, q := range []*peer.Pending{pA, pC} {
+		if r, done := q.Returned(); done {
+			c.fail("transport.send:spurious-return", fmt.Sprintf("call %d returned %s %q while its frame was waiting for a peer that had stopped reading", q.C, r.Class, r.Text))
+			c.broken = true
+			return
+		}
+	}
+	c.wfailed = true
+	resume()
+	fA, errA := c.peer.NextFrame()
+	if errA != nil {
+		c.fail("transport.handle:no-frame", fmt.Sprintf("call %d after the peer resumed reading: %v", idA, errA))
+		c.broken = true
+		return
+	}
+	fC, errC := c.peer.NextFrame()
+	if errC != nil {
+		c.fail("transport.writer:dead-after-failed-write", fmt.Sprintf("call %d was queued behind call %d, whose context ended while its frame waited in the queue (its WriteFcall fails without touching the wire); the peer reads again, the connection is healthy, but the frame of call %d never arrives: %v", idC, idB, idC, errC))
+		c.broken = true
+		return
+	}
+	if fA.Fid != idA || fA.Type != mtA || fC.Fid != idC || fC.Type != mtC {
+		// the three sends did not reach the loop in the order they were started (slow machine): not an observation
+		c.emit("X", "calls were not taken in start order")
+		c.broken = true
+		return
+	}
+	var accepted bool
+	switch {
+	case fA.Tag == t0+1 && fC.Tag == t0+3:
+		accepted = true
+	case fA.Tag == t0+1 && fC.Tag == t0+2:
+		accepted = false // B's context ended before the loop took its request
+	default:
+		for _, f := range []peer.Frame{fA, fC} {
+			if _, dup := c.awaiting[f.Tag]; dup || f.Tag == peer.NOTAG || fA.Tag == fC.Tag {
+				c.fail("transport.allocateTag:duplicate-tag", fmt.Sprintf("frame of call %d carries tag %d which is reserved or still awaits a reply", f.Fid, f.Tag))
+				c.broken = true
+				return
+			}
+		}
+		c.emit("X", "tags do not fit the start order")
+		c.broken = true
+		return
+	}
+	seq := func(e sx.S, o sx.S) { c.ev(e); c.obs(o) }
+	none := sx.Sym("none")
+	seq(sx.L(sx.Sym("q"), sx.U(uint64(idA)), sx.U(uint64(mtA))), none)
+	seq(sx.L(sx.Sym("hand")), none)
+	if accepted {
+		seq(sx.L(sx.Sym("q"), sx.U(uint64(idB)), sx.U(uint64(mtB))), none)
+	}
+	seq(sx.L(sx.Sym("cancel"), sx.U(uint64(idB))), sx.L(sx.Sym("d"), sx.U(uint64(idB)), resB.Sexp()))
+	seq(sx.L(sx.Sym("q"), sx.U(uint64(idC)), sx.U(uint64(mtC))), none)
+	seq(sx.L(sx.Sym("wrote")), sx.L(sx.Sym("f"), sx.U(uint64(fA.Tag))))
+	seq(sx.L(sx.Sym("hand")), none)
+	if accepted {
+		seq(sx.L(sx.Sym("wfail")), none)
+		seq(sx.L(sx.Sym("hand")), none)
+	}
+	seq(sx.L(sx.Sym("wrote")), sx.L(sx.Sym("f"), sx.U(uint64(fC.Tag))))
+	if resB.Class != "ctx" {
+		c.fail("transport.send:own-ctx-result", fmt.Sprintf("call %d: own context cancelled while queued, returned %s %q", idB, resB.Class, resB.Text))
+	}
+	for _, x := range []struct {
+		p *peer.Pending
+		f peer.Frame
+	}{{pA, fA}, {pC, fC}} {
+		c.live[x.p.C] = x.p
+		c.awaiting[x.f.Tag] = x.p.C
+		c.tagOf[x.p.C] = x.f.Tag
+		c.issued[x.f.Tag] = true
+	}
 }
 
 // replyLive answers pending call number idx.
@@ -421,7 +558,26 @@ func runHandshake(out *bufio.Writer, s script) {
 	if err != nil || sess == nil {
 		return // refused: fine
 	}
-	// a session was established: a call on it must come back (reply it if its frame arrives)
+	// a session was established: writes on it must come back with an error or a
+	// count (tiny msize values exercise the Twrite truncation arithmetic of WriteFcall) ...
+	for _, n := range []int{0, 1, 8, 40} {
+		wctx, wcancel := context.WithTimeout(context.Background(), peer.Wait)
+		done := make(chan struct{})
+		go func() {
+			sess.Write(wctx, 1, make([]byte, n), 0)
+			close(done)
+		}()
+		select {
+		case <-done:
+		case f, okf := <-p.Frames:
+			if okf {
+				p.Send(peer.Reply(f.Tag, 119, uint32(n)))
+			}
+			<-done
+		}
+		wcancel()
+	}
+	// ... and a call on it must come back (reply it if its frame arrives)
 	pc := peer.Start(context.Background(), sess, 120, 1, false)
 	select {
 	case <-pc.Done:
@@ -482,6 +638,10 @@ func runScript(out *bufio.Writer, s script) {
 			c.stray(st.How, st.Ty)
 		case "cancel":
 			c.cancel(st.Idx)
+		case "wfail":
+			c.failedWrite()
+		case "stall":
+			c.stall(st.MT, st.Ty, uint8(st.N))
 		case "fail":
 			g, _ := hex.DecodeString(st.Bytes)
 			c.failTransport(st.How, g)
@@ -615,9 +775,17 @@ func rversion(tag uint16, msize uint32, version string) []byte {
 // genHandshake: hostile answers to Tversion.
 func genHandshake(rng *prng.R, i int) script {
 	s := script{I: i}
+	// the first handshake scripts of every run walk through the msize values around
+	// the size of an empty Twrite (23 bytes), where WriteFcall's truncation arithmetic lives
+	fixed := []uint32{19, 20, 21, 22, 23, 18, 24, 0, 7, 27, 11, 1}
+	if j := i / 10; j < len(fixed) {
+		m := fixed[j]
+		s.HSWhat, s.Handshake = fmt.Sprintf("Rversion msize=%d", m), hex.EncodeToString(rversion(peer.NOTAG, m, "9P2000"))
+		return s
+	}
 	switch rng.Intn(9) {
 	case 0:
-		m := uint32(rng.Pick(0, 1, 3, 4, 6, 7, 8, 11, 23, 24, 100))
+		m := uint32(rng.Pick(0, 1, 3, 4, 6, 7, 8, 11, 18, 19, 20, 21, 22, 23, 24, 27, 31, 100))
 		s.HSWhat, s.Handshake = fmt.Sprintf("Rversion msize=%d", m), hex.EncodeToString(rversion(peer.NOTAG, m, "9P2000"))
 	case 1:
 		m := uint32(rng.Pick(65537, 1<<20, 1<<31, 0xFFFFFFFF))
@@ -658,6 +826,7 @@ func genScript(rng *prng.R, i int, decoderDefects bool, deadline bool) script {
 		st = append(st, step{Op: "late", MT: peer.Methods[rng.Intn(len(peer.Methods))], N: rng.Range(1, 2)})
 		return script{I: i, Steps: st, Deadline: 500}
 	}
+	stalls := 0
 	pend := rng.Pick(0, 0, 1, 1, 2, 3, 4, 6, 8, 12, 16)
 	nsteps := rng.Range(0, 25)
 	live := 0
@@ -678,6 +847,19 @@ func genScript(rng *prng.R, i int, decoderDefects bool, deadline bool) script {
 		case x < 72 && live > 0:
 			st = append(st, step{Op: "cancel", Idx: rng.Intn(16)})
 			live--
+		case x < 77:
+			// a write that fails on a healthy connection; whatever follows must still be written
+			st = append(st, step{Op: "wfail"})
+			if live < 16 {
+				st = append(st, step{Op: "req", MT: peer.Methods[rng.Intn(len(peer.Methods))]})
+				live++
+			}
+		case x < 80 && live <= 12 && stalls < 1:
+			// peer stops reading; a call abandoned while its frame is queued; another behind it
+			m := func() uint8 { return peer.Methods[rng.Intn(len(peer.Methods))] }
+			st = append(st, step{Op: "stall", MT: m(), Ty: m(), N: int(m())})
+			live += 3
+			stalls++
 		case x < 95:
 			ty := uint8(rng.Range(100, 127))
 			if ty == 106 {
@@ -867,6 +1049,8 @@ func main() {
 		switch {
 		case strings.Contains(msg, "unknown tag received"):
 			key = "transport.handle:panic-unknown-tag"
+		case strings.Contains(msg, "maybeTruncate"):
+			key = "channel.maybeTruncate:panic"
 		case strings.Contains(msg, "readmsg"):
 			key = "channel.readmsg:panic"
 		case strings.Contains(msg, "DecodeDir") || strings.Contains(msg, "encoding.go"):
@@ -915,14 +1099,14 @@ func main() {
 		if scripts[i].HSWhat != "" {
 			handshakes++
 			for _, fl := range res.fails {
-				r.Fail(fl["key"], fl["what"], sx.Sym("(handshake "+scripts[i].Handshake+")"), map[string]interface{}{"answer_to_Tversion": scripts[i].Handshake, "what": scripts[i].HSWhat})
+				r.Fail(fl["key"], fl["what"], sx.Sym("(handshake "+scripts[i].Handshake+")"), map[string]interface{}{"answer_to_Tversion": scripts[i].Handshake, "answer": scripts[i].HSWhat})
 			}
 			continue
 		}
 		nt := false
 		label := "nofail"
 		for _, st := range scripts[i].Steps {
-			if st.Op == "stray" || (st.Op == "reply" && st.Kind >= 2) {
+			if st.Op == "stray" || st.Op == "stall" || st.Op == "wfail" || (st.Op == "reply" && st.Kind >= 2) {
 				nt = true
 			}
 			if st.Op == "fail" {
